@@ -7,7 +7,9 @@ package main
 //   H   := id x y txt:hex type uiParent uiYang (~ | + TD)
 //   TD  := w h out:hex in:hex desc:hex ext:hex subidx rotate:tok render:hex (~ | + w h subidx type:hex shrink border) nS S^nS
 //   S   := objType:hex x y w h r rx ry style:hex idx
-//   RES := ids n id^n | xy x y | txt hex | td TD | err msg:hex | hwc H | p P | tp TD P | panic
+//   RES := ids n id^n | xy x y | txt hex | td TD | err msg:hex | hwc H | p P | tp TD P | panic | argmod
+//          argmod = an argument OBJECT passed to the library (the free-standing component of resolveAx, the definition the
+//          predicates are asked about) differs afterwards from a deep copy taken before the call
 // Every look-up prints `RES json` where json = canonical re-tokenisation of ToJSON() after the call.
 //   topo.jsonraw | hex(ToJSON()) same:01          raw bytes of ToJSON(); same = JSONstring() gives the same bytes
 //   topo.alias VIA GETTER args | alias had:01 changed:01 json
@@ -15,6 +17,18 @@ package main
 //        the getter is called, then the harness writes through the returned value (Sub[0].X++ / Disp.W++ /
 //        TypeOverride.W++), records whether ToJSON() changed (an observation of aliasing, not a violation), and
 //        undoes the write; json = ToJSON() after the undo.
+//
+// Histories on ONE Topology object (the executor keeps the object between records; topo.load makes a new one):
+//   topo.assign MODE T | json            MODE := fresh | inplace.  The value T is written into the EXISTING object through its
+//        exported fields (Title, HWc, TypeIndex, the components' fields, *TypeOverride, *Disp, Sub[i]); fresh = new slices, map
+//        and pointers everywhere, inplace = the cells that exist are reused where the shapes match.  json = ToJSON() after it.
+//   topo.wedit VIA GETTER args | RES json1 T json2
+//        VIA := sub | disp | ov (as topo.alias) | own | ownrefs.  The getter is called (RES, json1 = ToJSON() after the call),
+//        the caller then edits what it was handed and does NOT undo: own = every field of the returned struct is overwritten
+//        (scalars changed, Disp = nil, Sub = nil; component: all fields, TypeOverride = nil), ownrefs = Disp and Sub of the
+//        returned struct are pointed at new cells.  T json2 = the topology read through its exported fields / ToJSON() afterwards.
+//        The look-ups that follow must answer from the topology as it stands (T), whatever was handed out earlier.
+//   topo.pred2 TD TD' | p P p P          one TopologyHWcTypeDef object: predicates, every field assigned from TD' in place, predicates again
 
 import (
 	"encoding/hex"
@@ -237,6 +251,96 @@ func storeTD(m map[uint32]topology.TopologyHWcTypeDef, k uint32, td *topology.To
 	m[k] = topology.TopologyHWcTypeDef{W: td.W, H: td.H, Out: td.Out, In: td.In, Desc: td.Desc, Ext: td.Ext, Subidx: td.Subidx,
 		Rotate: td.Rotate, Disp: td.Disp, Sub: td.Sub, Render: td.Render}
 }
+// ---------- writing a topology VALUE into an existing Topology OBJECT through its exported fields ----------
+
+func cloneSubs(s []topology.TopologyHWcTypeDefSubEl) []topology.TopologyHWcTypeDefSubEl {
+	if s == nil {
+		return nil
+	}
+	return append([]topology.TopologyHWcTypeDefSubEl{}, s...)
+}
+func cloneDisp(d *topology.TopologyHWcTypeDef_Display) *topology.TopologyHWcTypeDef_Display {
+	if d == nil {
+		return nil
+	}
+	c := *d
+	return &c
+}
+
+// assignTD: dst's exported fields := src's.  inplace: an existing Disp cell / a Sub array of the same length is written, not replaced.
+func assignTD(dst, src *topology.TopologyHWcTypeDef, inplace bool) {
+	dst.W, dst.H, dst.Out, dst.In, dst.Desc, dst.Ext = src.W, src.H, src.Out, src.In, src.Desc, src.Ext
+	dst.Subidx, dst.Rotate, dst.Render = src.Subidx, src.Rotate, src.Render
+	if inplace && dst.Disp != nil && src.Disp != nil {
+		*dst.Disp = *src.Disp
+	} else {
+		dst.Disp = cloneDisp(src.Disp)
+	}
+	if inplace && len(src.Sub) > 0 && len(dst.Sub) == len(src.Sub) && cap(dst.Sub) == len(dst.Sub) {
+		copy(dst.Sub, src.Sub)
+	} else {
+		dst.Sub = cloneSubs(src.Sub)
+	}
+}
+
+func assignTopo(dst, src *topology.Topology, inplace bool) {
+	dst.Title = src.Title
+	// components
+	switch {
+	case src.HWc == nil:
+		dst.HWc = nil
+	case inplace && dst.HWc != nil && len(src.HWc) <= len(dst.HWc):
+		dst.HWc = dst.HWc[:len(src.HWc)]
+	case inplace && dst.HWc != nil:
+		for len(dst.HWc) < len(src.HWc) {
+			dst.HWc = append(dst.HWc, topology.TopologyHWcomponent{})
+		}
+	default:
+		dst.HWc = make([]topology.TopologyHWcomponent, len(src.HWc))
+	}
+	for i := range src.HWc {
+		d, s := &dst.HWc[i], &src.HWc[i]
+		d.Id, d.X, d.Y, d.Txt, d.Type, d.UIparent, d.UIyang = s.Id, s.X, s.Y, s.Txt, s.Type, s.UIparent, s.UIyang
+		switch {
+		case s.TypeOverride == nil:
+			d.TypeOverride = nil
+		case inplace && d.TypeOverride != nil:
+			assignTD(d.TypeOverride, s.TypeOverride, true)
+		default:
+			d.TypeOverride = &topology.TopologyHWcTypeDef{}
+			assignTD(d.TypeOverride, s.TypeOverride, false)
+		}
+	}
+	// type index
+	if src.TypeIndex == nil {
+		dst.TypeIndex = nil
+		return
+	}
+	if !inplace || dst.TypeIndex == nil {
+		dst.TypeIndex = map[uint32]topology.TopologyHWcTypeDef{}
+	}
+	for k := range dst.TypeIndex {
+		if _, ok := src.TypeIndex[k]; !ok {
+			delete(dst.TypeIndex, k)
+		}
+	}
+	for k := range src.TypeIndex {
+		s := src.TypeIndex[k]
+		n := &topology.TopologyHWcTypeDef{}
+		if old, ok := dst.TypeIndex[k]; ok && inplace {
+			n.Disp, n.Sub = old.Disp, old.Sub // the entry's own cells: written, not replaced
+		}
+		assignTD(n, &s, inplace)
+		storeTD(dst.TypeIndex, k, n)
+	}
+}
+
+func cloneTopo(t *topology.Topology) *topology.Topology {
+	c := &topology.Topology{}
+	assignTopo(c, t, false)
+	return c
+}
+
 func decTopo(r *tokReader) *topology.Topology {
 	t := &topology.Topology{}
 	t.Title = r.str()
@@ -264,6 +368,16 @@ func encPreds(td *topology.TopologyHWcTypeDef) []string {
 	return []string{b01(td.IsButton()), b01(td.IsBinary()), b01(td.IsPulsed()), b01(td.IsAbsolute()), b01(td.IsIntensity()),
 		b01(td.HasDisplay()), b01(td.HasLED()), itoa(td.HasSteps()), itoa(td.LedBarSteps()), b01(td.IsMotorized()),
 		hx([]byte(td.GetInputType()))}
+}
+
+// encPredsChecked: the predicates, and the definition they were asked about is afterwards what it was
+func encPredsChecked(td *topology.TopologyHWcTypeDef) []string {
+	before := strings.Join(encTD(td), " ")
+	o := encPreds(td)
+	if strings.Join(encTD(td), " ") != before {
+		return []string{"argmod"}
+	}
+	return o
 }
 
 // ---------- executor ----------
@@ -334,7 +448,7 @@ func (e *topoExec) Exec(cmd string, a []string) string {
 				res = []string{"err", hx([]byte(msg))}
 			} else {
 				res = append([]string{"tp"}, encTD(td)...)
-				res = append(res, encPreds(td)...)
+				res = append(res, encPredsChecked(td)...)
 			}
 		case "topo.resolveA":
 			k := r.int()
@@ -346,8 +460,12 @@ func (e *topoExec) Exec(cmd string, a []string) string {
 			}
 		case "topo.resolveAx":
 			c := decHWc(r)
+			before := strings.Join(encHWc(&c), " ")
 			td := top.GetTypeDefWithOverride(&c)
 			res = append([]string{"td"}, encTD(&td)...)
+			if strings.Join(encHWc(&c), " ") != before {
+				res = []string{"argmod"} // the callee changed the component it was passed
+			}
 		case "topo.resolveB":
 			k := r.int()
 			var td *topology.TopologyHWcTypeDef
@@ -369,7 +487,7 @@ func (e *topoExec) Exec(cmd string, a []string) string {
 			res = append([]string{"hwc"}, encHWc(c)...)
 		case "topo.pred":
 			td := decTD(r)
-			res = append([]string{"p"}, encPreds(td)...)
+			res = append([]string{"p"}, encPredsChecked(td)...)
 		case "topo.jsonraw":
 			withJSON = false
 			j := top.ToJSON()
@@ -388,8 +506,12 @@ func (e *topoExec) Exec(cmd string, a []string) string {
 				}
 			case "resolveAx":
 				c := decHWc(r)
+				cb := strings.Join(encHWc(&c), " ")
 				v := top.GetTypeDefWithOverride(&c)
 				td = &v
+				if strings.Join(encHWc(&c), " ") != cb {
+					panic("argmod: GetTypeDefWithOverride changed the component it was passed")
+				}
 			case "resolveB":
 				k := r.int()
 				guarded(func() { td = top.GetHWCTypeDefinition(k) })
@@ -427,6 +549,108 @@ func (e *topoExec) Exec(cmd string, a []string) string {
 				undo()
 			}
 			res = []string{"alias", b01(undo != nil), b01(changed)}
+		case "topo.assign":
+			mode := r.next()
+			if mode != "fresh" && mode != "inplace" {
+				panic("unknown assign mode " + mode)
+			}
+			assignTopo(top, decTopo(r), mode == "inplace")
+		case "topo.wedit":
+			via, getter := r.next(), r.next()
+			var td *topology.TopologyHWcTypeDef
+			var comp *topology.TopologyHWcomponent
+			switch getter {
+			case "type":
+				id := r.u32()
+				var err error
+				td, err = top.GetHWCtype(id)
+				if err != nil || td == nil {
+					td = nil
+					msg := "<nil error>"
+					if err != nil {
+						msg = err.Error()
+					}
+					res = []string{"err", hx([]byte(msg))}
+				}
+			case "resolveA":
+				if k := r.int(); k >= 0 && k < len(top.HWc) {
+					v := top.GetTypeDefWithOverride(&top.HWc[k])
+					td = &v
+				} else {
+					res = []string{"panic"}
+				}
+			case "resolveAx":
+				c := decHWc(r)
+				cb := strings.Join(encHWc(&c), " ")
+				v := top.GetTypeDefWithOverride(&c)
+				td = &v
+				if strings.Join(encHWc(&c), " ") != cb {
+					panic("argmod: GetTypeDefWithOverride changed the component it was passed")
+				}
+			case "resolveB":
+				k := r.int()
+				if pp := guarded(func() { td = top.GetHWCTypeDefinition(k) }); pp != "" || td == nil {
+					td = nil
+					res = []string{"panic"}
+				}
+			case "resolveBid":
+				k := r.int()
+				if pp := guarded(func() { td = top.GetHWCTypeDefinitionFromHWCid(k) }); pp != "" || td == nil {
+					td = nil
+					res = []string{"panic"}
+				}
+			case "defid":
+				comp = top.GetHWCDefinitionFromHWCid(r.int())
+				res = append([]string{"hwc"}, encHWc(comp)...)
+			default:
+				panic("unknown getter " + getter)
+			}
+			if td != nil {
+				res = append([]string{"td"}, encTD(td)...)
+			}
+			res = append(res, canonJSON(top.ToJSON()))
+			switch via {
+			case "sub":
+				if td != nil && len(td.Sub) > 0 {
+					td.Sub[0].X++
+				}
+			case "disp":
+				if td != nil && td.Disp != nil {
+					td.Disp.W++
+				}
+			case "ov":
+				if comp != nil && comp.TypeOverride != nil {
+					comp.TypeOverride.W++
+				}
+			case "own":
+				if td != nil {
+					td.W, td.H, td.Subidx, td.Rotate = td.W+7, 3-td.H, td.Subidx+1, td.Rotate+33
+					td.Out, td.In, td.Desc, td.Ext, td.Render = td.Out+"x", "av,"+td.In, "edited", "pos", "x"
+					td.Disp, td.Sub = nil, nil
+				}
+				if comp != nil {
+					comp.Id, comp.X, comp.Y, comp.Txt, comp.Type = comp.Id+5, comp.X+1, comp.Y-1, comp.Txt+"!", 77
+					comp.UIparent, comp.UIyang, comp.TypeOverride = comp.UIparent+1, comp.UIyang+1, nil
+				}
+			case "ownrefs":
+				if td != nil {
+					td.Disp = &topology.TopologyHWcTypeDef_Display{W: 1, H: 2}
+					td.Sub = []topology.TopologyHWcTypeDefSubEl{{ObjType: "r", X: 1}}
+				}
+				if comp != nil {
+					comp.TypeOverride = &topology.TopologyHWcTypeDef{W: 9, In: "pb"}
+				}
+			default:
+				panic("unknown via " + via)
+			}
+			res = append(res, encTopo(top)...)
+		case "topo.pred2":
+			withJSON = false
+			td := decTD(r)
+			res = append([]string{"p"}, encPredsChecked(td)...)
+			assignTD(td, decTD(r), true)
+			res = append(res, "p")
+			res = append(res, encPredsChecked(td)...)
 		case "topo.randomize":
 			seq := r.next() == "1"
 			quietly(func() { top.RandomizeTypes(seq) })
@@ -860,6 +1084,229 @@ func (g *topoGen) lookups(t *topology.Topology, full bool) {
 		if r.Chance(50) {
 			qS("topo.pred", encTD(g.typeDef(g.mask(), false)))
 		}
+		if r.Chance(50) {
+			// the predicates twice on ONE definition object that is edited in between
+			td := g.typeDef(g.mask()|8, false)
+			td2 := &topology.TopologyHWcTypeDef{}
+			assignTD(td2, td, false)
+			g.editTD(td2)
+			if r.Chance(60) {
+				td2.In = inKinds[r.Intn(len(inKinds))]
+			}
+			qS("topo.pred2", append(encTD(td), encTD(td2)...))
+		}
+	}
+}
+
+// ---------- histories: the same Topology object looked up, changed, looked up again ----------
+
+func (g *topoGen) sortedKeys(t *topology.Topology) []uint32 {
+	keys := []uint32{}
+	for k := range t.TypeIndex {
+		keys = append(keys, k)
+	}
+	sort.Slice(keys, func(i, j int) bool { return keys[i] < keys[j] })
+	return keys
+}
+
+// editTD: a definition with one to three attributes changed (set, altered or cleared)
+func (g *topoGen) editTD(td *topology.TopologyHWcTypeDef) {
+	r := g.r
+	n := r.Range(1, 3)
+	for i := 0; i < n; i++ {
+		f := g.typeDef(1<<r.Intn(11), r.Chance(20))
+		clear := r.Chance(25)
+		switch r.Intn(11) {
+		case 0:
+			td.W = f.W + r.Range(1, 60)
+		case 1:
+			td.H = f.H + r.Range(0, 60)
+		case 2:
+			td.Out = outKinds[r.Intn(len(outKinds))]
+		case 3:
+			td.In = inKinds[r.Intn(len(inKinds))]
+		case 4:
+			td.Desc = g.text(6)
+		case 5:
+			td.Ext = extKinds[r.Intn(len(extKinds))]
+		case 6:
+			td.Subidx = r.Range(-1, 4)
+		case 7:
+			td.Rotate = rotations[r.Intn(len(rotations))]
+		case 8:
+			if clear {
+				td.Disp = nil
+			} else {
+				td.Disp = g.disp()
+			}
+		case 9:
+			if clear {
+				td.Sub = nil
+			} else if len(td.Sub) > 0 && r.Bool() {
+				td.Sub = cloneSubs(td.Sub)
+				td.Sub[r.Intn(len(td.Sub))] = g.sub()
+			} else {
+				td.Sub = append(cloneSubs(td.Sub), g.sub())
+			}
+		case 10:
+			td.Render = []string{"txt", "hwcid", "txt,hwcid", "", "invtxt"}[r.Intn(5)]
+		}
+		if clear && r.Bool() {
+			td.In, td.Out, td.Ext = "", "", ""
+		}
+	}
+}
+
+// mutate: a deep copy of t with one change of the kind a caller makes through the exported fields: a component's
+// override set / changed / removed, a component removed / inserted / retyped / renumbered / moved / relabelled, two
+// components swapped, an index entry changed / removed / added, the title; rarely a different topology altogether
+func (g *topoGen) mutate(t *topology.Topology) *topology.Topology {
+	r := g.r
+	c := cloneTopo(t)
+	keys := g.sortedKeys(c)
+	nC := len(c.HWc)
+	pickC := func() int { return r.Intn(nC) }
+	kind := r.Intn(16)
+	if nC == 0 && kind < 10 {
+		kind = 10 + r.Intn(6)
+	}
+	switch kind {
+	case 0: // override set or replaced
+		c.HWc[pickC()].TypeOverride = g.typeDef(g.mask(), r.Chance(30))
+	case 1, 2: // override changed
+		k := pickC()
+		if c.HWc[k].TypeOverride == nil {
+			c.HWc[k].TypeOverride = &topology.TopologyHWcTypeDef{}
+		}
+		g.editTD(c.HWc[k].TypeOverride)
+	case 3: // override removed
+		k := pickC()
+		for i := 0; i < nC && c.HWc[k].TypeOverride == nil; i++ {
+			k = (k + 1) % nC
+		}
+		c.HWc[k].TypeOverride = nil
+	case 4: // component removed
+		k := pickC()
+		c.HWc = append(c.HWc[:k], c.HWc[k+1:]...)
+	case 5: // component retyped
+		k := pickC()
+		if len(keys) > 0 && r.Chance(70) {
+			c.HWc[k].Type = keys[r.Intn(len(keys))]
+		} else {
+			c.HWc[k].Type = uint32(r.Pick(0, 250, r.Range(1, 16)))
+		}
+	case 6: // component renumbered: onto another component's id, or a new one
+		k := pickC()
+		if r.Bool() {
+			c.HWc[k].Id = c.HWc[pickC()].Id
+		} else {
+			c.HWc[k].Id = uint32(r.Range(0, nC+2))
+		}
+	case 7: // moved, relabelled
+		k := pickC()
+		c.HWc[k].X, c.HWc[k].Y, c.HWc[k].Txt = c.HWc[k].X+r.Range(1, 50), r.Range(-100, 2000), g.text(8)
+	case 8: // two components swapped (the first one carrying an id changes when ids repeat)
+		i, j := pickC(), pickC()
+		c.HWc[i], c.HWc[j] = c.HWc[j], c.HWc[i]
+	case 9: // component inserted
+		n := g.freeComponent(c)
+		if r.Bool() && nC > 0 {
+			n.Id = c.HWc[pickC()].Id
+		} else {
+			n.Id = uint32(nC + 1)
+		}
+		k := r.Intn(nC + 1)
+		c.HWc = append(c.HWc[:k], append([]topology.TopologyHWcomponent{n}, c.HWc[k:]...)...)
+	case 10, 11: // index entry changed
+		if len(keys) == 0 {
+			if c.TypeIndex == nil {
+				c.TypeIndex = map[uint32]topology.TopologyHWcTypeDef{}
+			}
+			storeTD(c.TypeIndex, uint32(r.Range(1, 14)), g.typeDef(g.mask()|1|8, false))
+			break
+		}
+		k := keys[r.Intn(len(keys))]
+		td := c.TypeIndex[k]
+		g.editTD(&td)
+		storeTD(c.TypeIndex, k, &td)
+	case 12: // index entry removed
+		if len(keys) > 0 {
+			delete(c.TypeIndex, keys[r.Intn(len(keys))])
+		} else {
+			c.Title = g.text(5) + "."
+		}
+	case 13: // index entry added (possibly the one a so far unindexed component names)
+		if c.TypeIndex == nil {
+			c.TypeIndex = map[uint32]topology.TopologyHWcTypeDef{}
+		}
+		k := uint32(r.Range(1, 16))
+		if nC > 0 && r.Bool() {
+			k = c.HWc[pickC()].Type
+		}
+		storeTD(c.TypeIndex, k, g.typeDef(g.mask()|1|8, false))
+	case 14:
+		c.Title = g.text(5) + "."
+	default:
+		return g.topology(false)
+	}
+	return c
+}
+
+func (g *topoGen) assign(t *topology.Topology, step int) {
+	toks := encTopo(t)
+	topoTag = fingerprint(append(append([]string{}, toks...), itoa(step)))
+	emitS("topo.assign", append([]string{[]string{"fresh", "inplace"}[g.r.Intn(2)]}, toks...))
+}
+
+// wedits: the caller keeps what a getter handed back and edits it (no undo)
+func (g *topoGen) wedits(t *topology.Topology, step int) {
+	r := g.r
+	ids := g.idsToAsk(t)
+	n := r.Range(1, 3)
+	for i := 0; i < n; i++ {
+		id := ids[r.Intn(len(ids))]
+		via := []string{"own", "own", "ownrefs", "sub", "disp"}[r.Intn(5)]
+		switch r.Intn(6) {
+		case 0, 1:
+			q("topo.wedit", via, "type", utoa(id))
+		case 2:
+			q("topo.wedit", via, "resolveBid", strconv.FormatInt(int64(id), 10))
+		case 3:
+			q("topo.wedit", []string{"own", "ownrefs", "ov"}[r.Intn(3)], "defid", strconv.FormatInt(int64(id), 10))
+		case 4:
+			if len(t.HWc) > 0 {
+				q("topo.wedit", via, "resolveA", r.Intn(len(t.HWc)))
+			}
+		default:
+			q("topo.wedit", via, "resolveB", r.Range(0, len(t.HWc)))
+		}
+		topoTag = fingerprint(append(encTopo(g.current()), itoa(step), itoa(i)))
+	}
+}
+
+// history: look-ups were made on the loaded topology; now change it (through its fields, through the mutators, through
+// values handed out earlier) and ask everything again - on the same object
+func (g *topoGen) history(first *topology.Topology, steps int, fullAfter bool) {
+	r := g.r
+	for k := 0; k < steps; k++ {
+		switch r.Intn(12) {
+		case 0, 1, 2, 3, 4:
+			g.assign(g.mutate(g.current()), k)
+		case 5, 6, 7:
+			g.wedits(g.current(), k)
+		case 8:
+			q("topo.clean")
+		case 9:
+			q("topo.randomize", r.Bool())
+		case 10:
+			g.assign(first, k) // back to the topology the session started with
+		default:
+			t := g.mutate(g.current())
+			g.assign(t, k)
+			g.assign(g.mutate(t), k+100) // two changes in a row, nothing asked in between
+		}
+		topoTag = fingerprint(append(encTopo(g.current()), itoa(k)))
+		g.lookups(g.current(), fullAfter)
 	}
 }
 
@@ -886,6 +1333,7 @@ func genC13(r *Rng, sessions int, tier string) {
 		t := g.topology(false)
 		g.load(t)
 		g.lookups(t, true)
+		g.history(cloneTopo(t), r.Range(1, 3), r.Chance(50))
 	}
 }
 
@@ -915,9 +1363,14 @@ func genC14(r *Rng, sessions int, tier string) {
 		g.load(t)
 		q("topo.roundtrip")
 		q("topo.jsonraw") // the raw bytes of ToJSON(): escaping, separators, number literals
+		if r.Chance(60) {
+			g.lookups(t, false) // getter results BEFORE the first transformation (same object afterwards)
+		}
 		nops := r.Range(2, 5)
 		for k := 0; k < nops; k++ {
-			switch r.Intn(8) {
+			switch r.Intn(9) {
+			case 8:
+				g.assign(g.mutate14(g.current()), k)
 			case 0, 1, 2:
 				q("topo.randomize", true)
 			case 3, 4:
@@ -935,6 +1388,40 @@ func genC14(r *Rng, sessions int, tier string) {
 		}
 		q("topo.roundtrip")
 	}
+}
+
+// mutate14: a change through the exported fields that stays inside C14's domain (types of components 0 or indexed)
+func (g *topoGen) mutate14(t *topology.Topology) *topology.Topology {
+	r := g.r
+	c := cloneTopo(t)
+	keys := g.sortedKeys(c)
+	if len(c.HWc) == 0 {
+		c.Title = g.text(5) + "."
+		return c
+	}
+	k := r.Intn(len(c.HWc))
+	switch r.Intn(5) {
+	case 0:
+		c.HWc[k].TypeOverride = g.typeDef(g.mask(), r.Chance(30))
+	case 1:
+		c.HWc[k].TypeOverride = nil
+	case 2:
+		c.HWc[k].Type = 250 // becomes a section marker
+	case 3:
+		if len(keys) > 0 {
+			c.HWc[k].Type = keys[r.Intn(len(keys))]
+		} else {
+			c.HWc[k].Type = 0
+		}
+	default:
+		if len(keys) > 0 {
+			kk := keys[r.Intn(len(keys))]
+			td := c.TypeIndex[kk]
+			g.editTD(&td)
+			storeTD(c.TypeIndex, kk, &td)
+		}
+	}
+	return c
 }
 
 var theTopoExec = &topoExec{}
